@@ -1,6 +1,6 @@
 /-
   Source tie, group TokenTable: `renetcode/src/server.rs` `NetcodeServer::find_or_add_connect_token_entry`
-  (translated over the struct VIEW `NetcodeServer { connect_token_entries }`; `Duration` = nanoseconds, `SocketAddr`
+  (`reprTable base l` = the generated server `base` with the entry table `l`: no other field is touched; `Duration` = nanoseconds, `SocketAddr`
   = `RustSem.SocketAddr`) ↔ `Netcode.NetcodeServer.findOrAddConnectTokenEntry` of `Netcode/Server.lean`.
   `reprTable` / `reprEntry` / `reprAddr` map model values to generated ones (injective; IPv6 flow info / scope id 0).
 -/
@@ -11,10 +11,10 @@ open Src.renetcode.server
 
 /-- on a non-empty entry table (the Rust array has `NETCODE_MAX_CLIENTS * 2` slots) the generated function never
     panics and returns the model's table and verdict -/
-theorem token_table_find_or_add {ε : Type} (s : Netcode.NetcodeServer) (newEntry : Netcode.ConnectTokenEntry)
-    (hl : 0 < s.connectTokenEntries.length) :
-    (NetcodeServer.find_or_add_connect_token_entry (reprTable s.connectTokenEntries) (reprEntry newEntry) : Res ε _) =
-      .ok (reprTable (s.findOrAddConnectTokenEntry newEntry).1.connectTokenEntries,
+theorem token_table_find_or_add {ε : Type} (base : NetcodeServer) (s : Netcode.NetcodeServer)
+    (newEntry : Netcode.ConnectTokenEntry) (hl : 0 < s.connectTokenEntries.length) :
+    (NetcodeServer.find_or_add_connect_token_entry (reprTable base s.connectTokenEntries) (reprEntry newEntry) : Res ε _) =
+      .ok (reprTable base (s.findOrAddConnectTokenEntry newEntry).1.connectTokenEntries,
            (s.findOrAddConnectTokenEntry newEntry).2) := by
   rw [find_or_add_eq s.connectTokenEntries newEntry hl]
   unfold Netcode.NetcodeServer.findOrAddConnectTokenEntry
@@ -25,25 +25,27 @@ theorem token_table_find_or_add {ε : Type} (s : Netcode.NetcodeServer) (newEntr
   | none => rfl
 
 /-- on an empty table the write `self.connect_token_entries[0] = …` is out of bounds: panic -/
-theorem token_table_empty_panics {ε : Type} (newEntry : Netcode.ConnectTokenEntry) :
-    ∃ site, (NetcodeServer.find_or_add_connect_token_entry (reprTable []) (reprEntry newEntry) : Res ε _) = .panic site :=
+theorem token_table_empty_panics {ε : Type} (base : NetcodeServer) (newEntry : Netcode.ConnectTokenEntry) :
+    ∃ site, (NetcodeServer.find_or_add_connect_token_entry (reprTable base []) (reprEntry newEntry) : Res ε _) = .panic site :=
   ⟨_, rfl⟩
 
 /-! a 3-slot table: new MAC goes to the first empty slot; known MAC from the same / another address -/
 def exA : RustSem.SocketAddr := .v4 [127, 0, 0, 1] 5000
 def exB : RustSem.SocketAddr := .v4 [127, 0, 0, 1] 5001
+/-- a server with this entry table (all other fields empty / zero) -/
+def exTab (t : List (Option ConnectTokenEntry)) : NetcodeServer := ⟨[], [], t, 0, [], 0, 0, [], [], 0, 0, false, []⟩
 example :
-    (NetcodeServer.find_or_add_connect_token_entry ⟨[some ⟨10, exA, [1]⟩, none, none]⟩ ⟨20, exB, [2]⟩ : Res Empty _) =
-      .ok (⟨[some ⟨10, exA, [1]⟩, some ⟨20, exB, [2]⟩, none]⟩, true) := by decide +kernel
+    (NetcodeServer.find_or_add_connect_token_entry (exTab [some ⟨10, exA, [1]⟩, none, none]) ⟨20, exB, [2]⟩ : Res Empty _) =
+      .ok (exTab [some ⟨10, exA, [1]⟩, some ⟨20, exB, [2]⟩, none], true) := by decide +kernel
 example :
-    (NetcodeServer.find_or_add_connect_token_entry ⟨[some ⟨10, exA, [1]⟩, none, none]⟩ ⟨20, exA, [1]⟩ : Res Empty _) =
-      .ok (⟨[some ⟨10, exA, [1]⟩, none, none]⟩, true) := by decide +kernel
+    (NetcodeServer.find_or_add_connect_token_entry (exTab [some ⟨10, exA, [1]⟩, none, none]) ⟨20, exA, [1]⟩ : Res Empty _) =
+      .ok (exTab [some ⟨10, exA, [1]⟩, none, none], true) := by decide +kernel
 example :
-    (NetcodeServer.find_or_add_connect_token_entry ⟨[some ⟨10, exA, [1]⟩, none, none]⟩ ⟨20, exB, [1]⟩ : Res Empty _) =
-      .ok (⟨[some ⟨10, exA, [1]⟩, none, none]⟩, false) := by decide +kernel
+    (NetcodeServer.find_or_add_connect_token_entry (exTab [some ⟨10, exA, [1]⟩, none, none]) ⟨20, exB, [1]⟩ : Res Empty _) =
+      .ok (exTab [some ⟨10, exA, [1]⟩, none, none], false) := by decide +kernel
 /-- full table: the oldest entry is replaced -/
 example :
-    (NetcodeServer.find_or_add_connect_token_entry ⟨[some ⟨10, exA, [1]⟩, some ⟨5, exA, [3]⟩]⟩ ⟨20, exB, [2]⟩ : Res Empty _) =
-      .ok (⟨[some ⟨10, exA, [1]⟩, some ⟨20, exB, [2]⟩]⟩, true) := by decide +kernel
+    (NetcodeServer.find_or_add_connect_token_entry (exTab [some ⟨10, exA, [1]⟩, some ⟨5, exA, [3]⟩]) ⟨20, exB, [2]⟩ : Res Empty _) =
+      .ok (exTab [some ⟨10, exA, [1]⟩, some ⟨20, exB, [2]⟩], true) := by decide +kernel
 
 end RenetVerif.SrcTie
